@@ -464,7 +464,7 @@ func (c *Checker) CheckShapes(p Program, sc Scope, code string, opts ShapeOption
 	problems := NativeShapeProblems(outs[0].Report, p, g, m, opts)
 	out.Actual = problems
 	// what a replay needs to re-check the real report without the solver's model
-	out.Replay = map[string]any{"obligations": opts}
+	out.Replay = map[string]any{"obligations": opts, "profile_name": p.Name}
 	if opts.Locations {
 		locs := map[string]any{}
 		for i, id := range g.IDs {
@@ -504,6 +504,12 @@ func NativeShapeProblems(report string, p Program, g *Graph, m map[string]uint64
 		return []string{"C12.result-shape: not exactly one report node"}
 	}
 	rn := enc[0].(map[string]any)
+	var nameProblem []string
+	if want := p.Name; want != "" {
+		if got, _ := rn["profileName"].(string); got != want {
+			nameProblem = append(nameProblem, "C03.profile-name")
+		}
+	}
 	names := map[string]Validation{}
 	for _, v := range p.Validations {
 		names[v.Name] = v
@@ -514,7 +520,7 @@ func NativeShapeProblems(report string, p Program, g *Graph, m map[string]uint64
 			present[id] = i
 		}
 	}
-	var problems []string
+	problems := nameProblem
 	var walk func(r map[string]any, nested bool)
 	walk = func(r map[string]any, nested bool) {
 		focus, _ := r["focusNode"].(string)
